@@ -43,6 +43,9 @@ func WriteMessage(msg proto.Message, w io.Writer) error {
 	return nil
 }
 
+// maxReadChunk is the most memory ReadMessage allocates ahead of the data it has received.
+const maxReadChunk = 1 << 20
+
 // Read a message from io.ByteReader by first reading a varint size,
 // and then reading and decoding the message object.
 // If buf is not big enough a new buffer will be allocated to replace buf.
@@ -51,22 +54,29 @@ func ReadMessage(buf *[]byte, r ByteReadReader, msg proto.Message) error {
 	if err != nil {
 		return err
 	}
-	if cap(*buf) < int(size) {
-		*buf = make([]byte, size)
-	}
-	b := (*buf)[:size]
-	read := uint64(0)
-
-	for read != size {
-		n, err := r.Read(b[read:])
+	// Grow the buffer as the data arrives instead of trusting the size header,
+	// a corrupt or hostile header must not make us allocate gigabytes up front.
+	b := (*buf)[:0]
+	for uint64(len(b)) != size {
+		chunk := size - uint64(len(b))
+		if chunk > maxReadChunk {
+			chunk = maxReadChunk
+		}
+		if uint64(cap(b)-len(b)) < chunk {
+			nb := make([]byte, len(b), uint64(len(b))+chunk)
+			copy(nb, b)
+			b = nb
+		}
+		n, err := r.Read(b[len(b) : uint64(len(b))+chunk])
 		if err == io.EOF {
 			return fmt.Errorf("unexpected EOF, expected %d more bytes", size)
 		}
 		if err != nil {
 			return err
 		}
-		read += uint64(n)
+		b = b[:len(b)+n]
 	}
+	*buf = b
 	err = proto.Unmarshal(b, msg)
 	if err != nil {
 		return err
